@@ -145,6 +145,17 @@ def r3_sole(facts, rep):
                 good = sole == T("Eq", T("len", Sym("names")), Const(1)) and power == Sym("mod_power") and inverse == Const(True)
                 rep.ob("C09-R3", "reconstruct", good,
                        "reconstruct sheds a re-derived unit with apply_conversion(power=%r, inverse=%r, sole=%r)" % (power, inverse, sole))
+            # "sole" must count the map as it is once the re-derived unit is in it: the size is taken after the last change
+            log = list(r["log"])
+            ci = [i for i, e in enumerate(log) if e[0] == "conv"]
+            if ci:
+                nm = lambda x: getattr(x, "name", x)
+                li = [i for i, e in enumerate(log[:ci[0]]) if e[0] == "len" and nm(e[1]) == "names"]
+                mi = [i for i, e in enumerate(log) if e[0] in ("insert", "remove") and nm(e[1]) == "names"]
+                late = [log[i] for i in mi if li and i > li[-1]]
+                rep.ob("C09-R3", "reconstruct:size-after-changes", bool(li) and not late,
+                       "the size that decides `sole` is taken after every change of the map" if li and not late else
+                       ("the map is still changed (%s) after its size was taken for `sole`" % (late[:1],) if li else "no size of the map is taken before the conversion"))
         rep.floor("C09-R3", "conversion calls in reconstruct's summary", n, 1)
     # who calls apply_conversion at all
     from .common import census
@@ -198,6 +209,18 @@ def run(fx, rep, tier):
     r2_apply(facts, rep)
     r3_sole(facts, rep)
     r4_order(facts, rep)
+    # whether a scale stands alone with power one is decided on the unit the expression denotes: (0 degC)^2 must carry degC^2
+    rep.rule("C09-R5", "the power guard sees the real power: a quantity raised to a power carries unit^n also when its value "
+                       "is zero, and a product or quotient with a plain number the other side's unit to the power +1 / -1 (shared "
+                       "with C04-R1 and C04-R5)")
+    from . import c04
+    s5 = type(rep)(rep.prop, rep.tier)
+    c04.r1_pow_unit(facts, s5)
+    c04.r2_r5_mul(facts, s5)
+    for o in s5.obls:
+        if o["rule"] in ("C04-R1", "C04-R5"):
+            o["rule"] = "C09-R5"
+            rep.obls.append(o)
     if "rel" in fx:
         sub = type(rep)(rep.prop, rep.tier)
         r2_apply(fx["rel"], sub)
